@@ -48,10 +48,15 @@ func runC20(s *kernel.Sim) {
 	}
 	s.Knobs["consecutive"], s.Knobs["stable_period"], s.Knobs["interval"], s.Knobs["cooldown"] = consecutive, stable.String(), interval.String(), cooldown.String()
 	s.Knobs["length"], s.Knobs["mode"] = length, mode
+	// the real predicate is an HTTP call: it takes time, so the checks drift off the
+	// interval grid (a fixed latency per run, applied to every call or to some)
+	lat := []time.Duration{0, 0, 37 * time.Millisecond, 100 * time.Millisecond, interval / 3}[tp.Choose(5)]
+	latEvery := tp.Chance(1, 2)
+	s.Knobs["predicate_latency"] = lat.String()
 	s.MixSig(fmt.Sprint(consecutive, stable, interval, cooldown, script))
 
 	type obs struct {
-		t time.Duration
+		t time.Duration // start of the check (the earliest instant the state can count as observed)
 		v bool
 	}
 	type react struct {
@@ -70,6 +75,9 @@ func runC20(s *kernel.Sim) {
 			}
 			observations = append(observations, obs{s.Now(), v})
 			s.Event("observe", fmt.Sprint(v))
+			if lat > 0 && (latEvery || i%3 == 0) {
+				time.Sleep(lat)
+			}
 			return v
 		},
 		OnChangeToTrue: func() {
